@@ -708,7 +708,16 @@ func c03Exec(raw json.RawMessage) Result {
 			val = c03Ctors[want].value(&op.A)
 		}
 		res, got := c03Run(func() zapcore.Field { return zap.Any(key, val) })
-		return Result{Impl: res, Oracle: c03OracleAny(want, key, val, &op.A, res, got), Nontrivial: true, Shape: "any/" + strings.TrimLeft(want, "zap.")}
+		o := c03OracleAny(want, key, val, &op.A, res, got)
+		if o.OK && !res.Panic {
+			// the same value through Config.InitialFields must reach the encoder as the very same call
+			if via, built := c03ViaConfig(key, val); built && !c03SameCalls(via, res) {
+				a, _ := json.Marshal(res.Calls)
+				b, _ := json.Marshal(via.Calls)
+				o = bad("C03:initial-field-differs:"+strings.TrimLeft(want, "zap."), "zap.Any(%q, v) reaches the encoder as %s, the same value as Config.InitialFields[%q] as %s", key, trunc(a), key, trunc(b))
+			}
+		}
+		return Result{Impl: res, Oracle: o, Nontrivial: true, Shape: "any/" + strings.TrimLeft(want, "zap.")}
 	case "eq":
 		fc, gc := c03Ctors[op.F.C], c03Ctors[op.G.C]
 		f := fc.build(string(unhx(op.F.Key)), &op.F.A)
